@@ -21,16 +21,10 @@ def imagesBack (qb : Q) (IB : Key → St → List St) (p : Program) (k : Key) (s
     | .ok s' => [s']
     | .error _ => [])
 
-/-- the request proper of a `BackwardProjectionPropagation` caller -/
+/-- the request proper of a `BackwardProjectionPropagation` caller (since the F13 repair: the request
+    of a pedantic query caller) -/
 def firstB (p : Program) (k : Key) (s : St) : Except Err (Val × St) :=
-  match s.nodes k with
-  | none => queryQ p (fuelFor p) true k s
-  | some n =>
-    if n.lastVerified = s.epoch then .ok (n.value, s)
-    else
-      match p[k]? with
-      | none => .error (.badKey k)
-      | some d => execute (queryQ p (fuelFor p) true) k d s
+  queryQ p (fuelFor p) true k s
 
 theorem queryB_eq (p : Program) (fuel : Nat) (k : Key) (s : St) :
     queryB p (fuel + 1) k s =
@@ -46,18 +40,7 @@ theorem queryB_eq (p : Program) (fuel : Nat) (k : Key) (s : St) :
 def imagesB (p : Program) : Nat → Key → St → List St
   | 0, _, _ => []
   | fuel + 1, k, s =>
-    (match s.nodes k with
-     | none => imagesQ p (fuelFor p) true k s
-     | some n =>
-       if n.lastVerified = s.epoch then []
-       else
-         match p[k]? with
-         | none => []
-         | some d =>
-           imagesRun (queryQ p (fuelFor p) true) (imagesQ p (fuelFor p) true) d.prog s ++
-             (match firstB p k s with
-              | .ok (_, s1) => [s1]
-              | .error _ => [])) ++
+    imagesQ p (fuelFor p) true k s ++
     (match firstB p k s with
      | .ok (_, s1) => if hasPending s1 k then imagesBack (queryB p fuel) (imagesB p fuel) p k s1 else []
      | .error _ => [])
@@ -133,40 +116,28 @@ theorem imagesBack_ok {p : Program} {qb : Q} {IB : Key → St → List St} {k : 
       subst ht
       exact ⟨hbp.1, hbp.2.1⟩
   | inl ht =>
-    have hpreOf : ∀ c s', (k < c ∧ hasPending s' k = true ∧ ∃ n, s'.nodes c = some n ∧
-        n.kind = .projection ∧ (n.lastVerified = s'.epoch ∨ ∃ o, (k, o) ∈ n.deps)) → PreB s' c := by
-      rintro c s' ⟨hlt, hpk', n, hn, hkp, hc⟩
-      refine ⟨n, hn, hkp, ?_⟩
-      rcases hc with hc | ⟨o, hm⟩
-      · exact Or.inl hc
-      · exact Or.inr ⟨k, o, hm, hpk'⟩
     refine imagesEach_ok
-      (P := fun c s' => k < c ∧ hasPending s' k = true ∧ ∃ n, s'.nodes c = some n ∧
-        n.kind = .projection ∧ (n.lastVerified = s'.epoch ∨ ∃ o, (k, o) ∈ n.deps))
+      (P := fun c s' => k < c ∧ PreB s' c)
       (R := NoClearBelow (k + 1)) ?_ ?_ ?_ (projsAbove p s k) s ?_ inv t ht
     · intro c s' i hP
-      refine (hq c s' hP.1 i (hpreOf c s' hP)).mono ?_
+      refine (hq c s' hP.1 i hP.2).mono ?_
       rintro r ⟨hu, hnc, _⟩
       exact ⟨hu, hnc.mono (by have := hP.1; komega)⟩
     · intro c s' i hP
-      exact hI c s' hP.1 i (hpreOf c s' hP)
-    · rintro c s1 s2 ⟨hlt, hpk1, n, hn, hkp, hc⟩ i1 i2 f12 r12
-      refine ⟨hlt, hasPending_noClear r12 (by komega) hpk1, ?_⟩
+      exact hI c s' hP.1 i hP.2
+    · rintro c s1 s2 ⟨hlt, n, hn, hkp⟩ i1 i2 f12 _
+      refine ⟨hlt, ?_⟩
       cases f12.same_or_verified c with
       | inr v =>
-        obtain ⟨n2, h2, hv2⟩ := v
+        obtain ⟨n2, h2, _⟩ := v
         obtain ⟨d1, hp1, hk1, _⟩ := i1.kind c n hn
         obtain ⟨d2, hp2, hk2, _⟩ := i2.kind c n2 h2
         rw [hp1] at hp2; cases hp2
-        exact ⟨n2, h2, by rw [← hk2, hk1]; exact hkp, Or.inl hv2⟩
-      | inl e =>
-        refine ⟨n, by rw [e]; exact hn, hkp, ?_⟩
-        rcases hc with hc | hc
-        · exact Or.inl (by rw [hc, f12.epoch])
-        · exact Or.inr hc
+        exact ⟨n2, h2, by rw [← hk2, hk1]; exact hkp⟩
+      | inl e => exact ⟨n, by rw [e]; exact hn, hkp⟩
     · intro c hc
       obtain ⟨hlt, n, o, hn, hkp, hm⟩ := mem_projsAbove.1 hc
-      exact ⟨(inv.down c n hn k o hm).1, by simp [hasPending, hk, hpk], n, hn, hkp, Or.inr ⟨o, hm⟩⟩
+      exact ⟨(inv.down c n hn k o hm).1, n, hn, hkp⟩
 
 theorem imagesQ_badKey {p : Program} {s : St} (inv : Inv p s) {k : Key} (hk : p.length ≤ k) (fuel : Nat)
     (ped : Bool) : imagesQ p fuel ped k s = [] := by
@@ -189,32 +160,8 @@ theorem imagesQ_fuelFor_ok {p : Program} (wf : WF p) (sh : Shape p) (ped : Bool)
 
 /-- the request proper of the `BackwardProjectionPropagation` caller (first half of `queryB_spec`) -/
 theorem firstB_spec {p : Program} (wf : WF p) (sh : Shape p) {c : Key} {s : St}
-    (inv : Inv p s) (hpre : PreB s c) : Sat (firstB p c s) (QPost p c s) := by
-  obtain ⟨n, hn, hkp, hc⟩ := hpre
-  obtain ⟨d, hp, hkd, _⟩ := inv.kind c n hn
-  simp only [firstB, hn]
-  split
-  · rename_i hv
-    refine ⟨inv, Frame.refl p s, Touches.refl _ s, ?_, n, hn, rfl, hv⟩
-    obtain ⟨n', hn', hcur⟩ := solid_correct wf inv (inv.solid c n hn hv)
-    rw [hn] at hn'; cases hn'; exact hcur
-  · rename_i hv
-    rw [hp]
-    simp only
-    obtain ⟨f, o, hm, hpe⟩ : ∃ f o, (f, o) ∈ n.deps ∧ hasPending s f = true := by
-      rcases hc with h | h
-      · exact absurd h hv
-      · exact h
-    have hlt : c < p.length := by
-      rw [List.getElem?_eq_some_iff] at hp
-      obtain ⟨h, _⟩ := hp; exact h
-    have hq : QSpec p (queryQ p (fuelFor p) true) c := fun d' hd' s' inv' =>
-      queryQ_spec wf sh (fuelFor p) true d' (by simp [fuelFor]; komega) s' inv'
-    have hnv : ¬ Verified s c := by
-      rintro ⟨n', hn', hv'⟩
-      rw [hn] at hn'; cases hn'; exact hv hv'
-    exact execute_spec wf sh hq hp (by rw [hkd, hkp]; decide) (by rw [hkd, hkp]; decide) inv
-      (Or.inr ⟨hnv, n, f, o, hn, hkp, hm, hpe⟩) (Or.inr ⟨n, f, o, hn, hkp, hv, hm, hpe⟩)
+    (inv : Inv p s) : Sat (firstB p c s) (QPost p c s) :=
+  queryQ_fuelFor wf sh true c inv
 
 theorem imagesB_ok {p : Program} (wf : WF p) (sh : Shape p) :
     ∀ fuel c s, p.length ≤ c + fuel → Inv p s → PreB s c → ∀ t, t ∈ imagesB p fuel c s → ImgOK p s t := by
@@ -222,37 +169,11 @@ theorem imagesB_ok {p : Program} (wf : WF p) (sh : Shape p) :
   induction fuel with
   | zero => intro c s _ _ _ t ht; simp [imagesB] at ht
   | succ fuel ih =>
-    intro c s hf inv hpre t ht
-    have hfirst := firstB_spec wf sh inv hpre
-    obtain ⟨n, hn, hkp, hc⟩ := hpre
-    obtain ⟨d, hp, hkd, _⟩ := inv.kind c n hn
-    have hlt : c < p.length := by
-      rw [List.getElem?_eq_some_iff] at hp
-      obtain ⟨h, _⟩ := hp; exact h
-    simp only [imagesB, hn, List.mem_append] at ht
+    intro c s hf inv _ t ht
+    have hfirst := firstB_spec wf sh (c := c) inv
+    simp only [imagesB, List.mem_append] at ht
     cases ht with
-    | inl ht =>
-      split at ht
-      · simp at ht
-      · rw [hp] at ht
-        simp only [List.mem_append] at ht
-        cases ht with
-        | inl ht =>
-          have hq : QSpec p (queryQ p (fuelFor p) true) c := fun d' hd' s' inv' =>
-            queryQ_spec wf sh (fuelFor p) true d' (by simp [fuelFor]; komega) s' inv'
-          obtain ⟨sc, d', hd', isc, fsc, hmem⟩ :=
-            imagesRun_mem hq d.prog s (wf c d hp (by rw [hkd, hkp]; decide) (by rw [hkd, hkp]; decide)).1 inv
-              (Frame.refl p s) t ht
-          exact (imagesQ_fuelFor_ok wf sh true d' isc t hmem).trans fsc
-        | inr ht =>
-          cases hr : firstB p c s with
-          | error e => rw [hr] at ht; simp at ht
-          | ok r =>
-            obtain ⟨v, s1⟩ := r
-            rw [hr] at ht hfirst
-            simp only [List.mem_singleton] at ht
-            subst ht
-            exact ⟨hfirst.1, hfirst.2.1⟩
+    | inl ht => exact imagesQ_fuelFor_ok wf sh true c inv t ht
     | inr ht =>
       cases hr : firstB p c s with
       | error e => rw [hr] at ht; simp at ht
